@@ -109,11 +109,39 @@ func (g *glueGen) stmts(ss []ast.Stmt, indent string) string {
 	if len(ss) == 0 {
 		return "[]"
 	}
-	parts := make([]string, len(ss))
-	for i, s := range ss {
-		parts[i] = g.stmt(s, indent+"  ")
+	var parts []string
+	for _, s := range ss {
+		// `var ( a T; b U )` declares into the enclosing scope: one varDecl per name, in place
+		// (not a block, whose declarations would end with it)
+		if ds, ok := s.(*ast.DeclStmt); ok {
+			if gd, ok := ds.Decl.(*ast.GenDecl); ok && gd.Tok == token.VAR {
+				parts = append(parts, g.varDecls(gd)...)
+				continue
+			}
+		}
+		parts = append(parts, g.stmt(s, indent+"  "))
 	}
 	return "[\n" + indent + "  " + strings.Join(parts, ",\n"+indent+"  ") + "]"
+}
+
+// varDecls: one `.varDecl name type [value]` per declared name of a var declaration.
+func (g *glueGen) varDecls(gd *ast.GenDecl) []string {
+	var parts []string
+	for _, sp := range gd.Specs {
+		vs := sp.(*ast.ValueSpec)
+		ty := ""
+		if vs.Type != nil {
+			ty = src(g.fset, vs.Type)
+		}
+		for i, n := range vs.Names {
+			val := "[]"
+			if i < len(vs.Values) {
+				val = "[" + g.expr(vs.Values[i]) + "]"
+			}
+			parts = append(parts, fmt.Sprintf(".varDecl %s %s %s", leanStr(n.Name), leanStr(ty), val))
+		}
+	}
+	return parts
 }
 
 func (g *glueGen) block(b *ast.BlockStmt, indent string) string {
@@ -177,25 +205,11 @@ func (g *glueGen) stmt(s ast.Stmt, indent string) string {
 		return fmt.Sprintf(".opAssign %s [%s] []", leanStr(s.Tok.String()), g.expr(s.X))
 	case *ast.DeclStmt:
 		if gd, ok := s.Decl.(*ast.GenDecl); ok && gd.Tok == token.VAR {
-			var parts []string
-			for _, sp := range gd.Specs {
-				vs := sp.(*ast.ValueSpec)
-				ty := ""
-				if vs.Type != nil {
-					ty = src(g.fset, vs.Type)
-				}
-				for i, n := range vs.Names {
-					val := "[]"
-					if i < len(vs.Values) {
-						val = "[" + g.expr(vs.Values[i]) + "]"
-					}
-					parts = append(parts, fmt.Sprintf(".varDecl %s %s %s", leanStr(n.Name), leanStr(ty), val))
-				}
-			}
+			parts := g.varDecls(gd)
 			if len(parts) == 1 {
 				return parts[0]
 			}
-			return ".block [" + strings.Join(parts, ", ") + "]"
+			return ".block [" + strings.Join(parts, ", ") + "]" // only reached outside a statement list
 		}
 	case *ast.SwitchStmt:
 		tag := ".lit " + leanStr("true")
